@@ -13,4 +13,6 @@ for p in "$@"; do
   grep -A1 "^VIOLATION" /tmp/seedtest_err.log | grep "^  " | head -3
 done
 git -C /repo checkout -- .
+# the evidence files now describe the seeded tree: put the committed (clean-tree) ones back
+git -C /verif checkout -- evidence 2>/dev/null
 git -C /repo status --short | head
